@@ -465,6 +465,7 @@ qb_ipc_us_recv_at_most(struct qb_ipc_one_way *one_way,
 	int32_t final_rc = 0;
 	int32_t to_recv = 0;
 	char *data = msg;
+	struct qb_ipc_request_header hdr;
 	struct ipc_us_control *ctl = NULL;
 	int32_t time_waited = 0;
 	int32_t time_to_wait = timeout;
@@ -476,7 +477,8 @@ qb_ipc_us_recv_at_most(struct qb_ipc_one_way *one_way,
 	qb_sigpipe_ctl(QB_SIGPIPE_IGNORE);
 
 retry_peek:
-	result = recv(one_way->u.us.sock, data,
+	/* peek into a local header: the caller's buffer may be smaller than that */
+	result = recv(one_way->u.us.sock, &hdr,
 		      sizeof(struct qb_ipc_request_header),
 		      MSG_NOSIGNAL | MSG_PEEK);
 
@@ -507,9 +509,16 @@ retry_peek:
 		}
 	}
 	if (result >= sizeof(struct qb_ipc_request_header)) {
-		struct qb_ipc_request_header *hdr = NULL;
-		hdr = (struct qb_ipc_request_header *)msg;
-		to_recv = hdr->size;
+		to_recv = hdr.size;
+	}
+	if (to_recv < 0 || (size_t)to_recv > len) {
+		/*
+		 * The size the sender put in the header does not fit into
+		 * the caller's buffer: leave the message queued and
+		 * write nothing.
+		 */
+		final_rc = -EMSGSIZE;
+		goto cleanup_sigpipe;
 	}
 
 	result = recv(one_way->u.us.sock, data, to_recv,
